@@ -504,6 +504,11 @@ def _clone_call(p, strategy):
     return _finite(got, "optimal_clone"), vecs, probs, reps
 
 
+def _tolr(reps):
+    """SCS/Clarabel accuracy degrades with the size of the program: two repetitions are 64 x 64 (cloning) -- observed errors up to 6e-4"""
+    return TOL_SDP if reps == 1 else 4 * TOL_SDP
+
+
 def _mk_clone(strategy, direction):
     label = "primal (strategy=True)" if strategy else "dual (default)"
 
@@ -512,9 +517,9 @@ def _mk_clone(strategy, direction):
 
         got, vecs, probs, reps = _clone_call(p, strategy)
         L, U = _clone_oracle(vecs, probs, reps)
-        if direction == "ge" and got < L - TOL_SDP:
+        if direction == "ge" and got < L - _tolr(reps):
             raise Violation("optimal_clone %s, reps=%d: %.6f < %.6f attained by an explicit channel (optimum certified in [%.6f, %.6f])" % (label, reps, got, L, L, U))
-        if direction == "le" and got > U + TOL_SDP:
+        if direction == "le" and got > U + _tolr(reps):
             raise Violation("optimal_clone %s, reps=%d: %.6f > %.6f certified by an explicit dual-feasible Y (optimum in [%.6f, %.6f])" % (label, reps, got, U, L, U))
         return {"got": got, "L": L, "U": U}
 
@@ -529,7 +534,7 @@ def clone_pd(p):
 
     a, vecs, probs, reps = _clone_call(p, True)
     b, _, _, _ = _clone_call(p, False)
-    if abs(a - b) > 2 * TOL_SDP:
+    if abs(a - b) > 2 * _tolr(reps):
         raise Violation("optimal_clone: primal %.6f and dual %.6f differ (reps=%d)" % (a, b, reps))
 
 
